@@ -304,6 +304,12 @@ def injections(gen, cid, o, full=False):
                         at(x, path)[extra_name] = 1
                 nc = {"nocorr": True}
                 mut(lambda x: tlreg(x), "registered toplevel-property-extension with its declared property at %s" % ps, False, nc)
+                # the registered extension given WITHOUT its extension_type (the registered class fills it in and writes it)
+                def tlbare(x):
+                    tlreg(x)
+                    add(x, REG_TOPLEVEL, {})
+                mut(tlbare, "registered toplevel-property-extension given without extension_type, with its declared property at %s" % ps,
+                    False, nc)
                 mut(lambda x: tlreg(x, "zzz_undeclared"),
                     "undeclared property next to a registered toplevel-property-extension at %s" % ps, True, nc)
                 mut(lambda x: tlreg(x, None, False),
@@ -622,6 +628,9 @@ FINDINGS = [
 
 def classify(case, f):
     site = case.get("site", "")
+    if f["kind"] == "flag-true-but-strict-reparse-accepts" and site.startswith(
+            "registered toplevel-property-extension given without extension_type, with its declared property"):
+        return "C04-registered-toplevel-extension-without-extension-type-flagged-but-reparse-accepts"
     if f["kind"] == "flag-true-but-strict-reparse-accepts" and "given as null / empty list" in site:
         return "C04-null-valued-custom-property-sets-flag"
     if site.startswith("custom_properties key at definition (") and "MarkingDefinition" in case["cid"] and f["kind"] in (
